@@ -17,6 +17,13 @@
 //            lowstore=<count:first addr> (stores below the end of the image that hit a word that
 //            is not a DATA word of the listing) data=<number of data words>
 //
+//   x <action> <srchex>          action = tokens|tree|treeopt|insts|lowered|optimised|asm|bin
+//     -> one xcmp::Driver::run with that DriverAction (C09, C11):
+//        ok out=<hex of the output stream|-> bin=<hex of the emitted file|->
+//        diag <exception class> <location|no_location> image=<1 if a file was emitted, else 0>
+//   seq <action> <srchex>,<srchex>,...
+//     -> the same for several sources compiled one after the other in this process; results joined by ' ; '
+//
 // The whole loop runs on a thread with a 1 GiB stack so that sanitizer-inflated frames of the
 // recursive-descent parser and visitors do not overflow where the shipped build would not.
 #include <cstdio>
@@ -127,6 +134,36 @@ static bool dataWords(const std::string &src, std::set<uint32_t> &data) {
   } catch (std::exception &) { return false; }
 }
 
+static xcmp::DriverAction actionOf(const std::string &a) {
+  if (a == "tokens") return xcmp::DriverAction::EMIT_TOKENS;
+  if (a == "tree") return xcmp::DriverAction::EMIT_TREE;
+  if (a == "treeopt") return xcmp::DriverAction::EMIT_OPTIMISED_TREE;
+  if (a == "insts") return xcmp::DriverAction::EMIT_INTERMEDIATE_INSTS;
+  if (a == "lowered") return xcmp::DriverAction::EMIT_LOWERED_INSTS;
+  if (a == "optimised") return xcmp::DriverAction::EMIT_OPTIMISED_INSTS;
+  if (a == "asm") return xcmp::DriverAction::EMIT_ASM;
+  return xcmp::DriverAction::EMIT_BINARY;
+}
+
+/// One compilation with the given action; canonical observation.
+static std::string compileAction(const std::string &action, const std::string &src) {
+  unlink("x.bin");
+  std::ostringstream out;
+  try {
+    xcmp::Driver driver(out);
+    driver.run(actionOf(action), src, false, "x.bin");
+    bool ex; std::string bin = readFile("x.bin", ex);
+    return "ok out=" + tohex(out.str()) + " bin=" + (ex ? tohex(bin) : std::string("-"));
+  } catch (const hexutil::Error &e) {
+    bool ex; readFile("x.bin", ex);
+    std::string loc = e.hasLocation() ? e.getLocation().str() : std::string("no location");
+    return "diag " + className(e) + " " + oneWord(loc) + " image=" + (ex ? "1" : "0");
+  } catch (const std::exception &e) {
+    bool ex; readFile("x.bin", ex);
+    return "diag " + className(e) + " no_location image=" + (ex ? "1" : "0");
+  }
+}
+
 static long consumed(std::istringstream &in, size_t total) {
   in.clear(); long pos = (long)in.tellg(); return pos < 0 ? (long)total : pos;
 }
@@ -228,6 +265,15 @@ static void *loop(void *) {
           res = std::string(f[0] == "acc" ? "acc " : "") + "sim-throw " + oneWord(e.what());
         }
         delete p;
+      }
+    } else if (f[0] == "x" && f.size() >= 3) {
+      res = compileAction(f[1], unhex(f[2]));
+    } else if (f[0] == "seq" && f.size() >= 3) {
+      bool first = true;
+      for (auto &hx : split(f[2], ',')) {
+        if (!first) res += " ; ";
+        first = false;
+        res += compileAction(f[1], unhex(hx));
       }
     } else {
       res = "bad-op";
